@@ -996,6 +996,15 @@ def check_c10(ctx, scn, model, name, op, vs, calls, oi):
                     ctx.violate('C10', 'resampling', '%s:resample-size' % name,
                                 {'op': oi, 'size': int(numpy.size(c[2])), 'n_obs': n_obs})
                     return
+            for c in choices:
+                # a resample is N_obs independent draws (with replacement) from the union catalog / its histogram
+                if c[1] is not None and c[1][2] is not True:
+                    ctx.violate('C10', 'resampling', '%s:resample-drawn-without-replacement' % name, {'op': oi})
+                    return
+                if name == 'MLL_magnitude_full' and c[1] is not None and len(c[1][0]) != int(model.n_union):
+                    ctx.violate('C10', 'resampling', '%s:population-is-not-the-union-catalog' % name,
+                                {'op': oi, 'population': len(c[1][0]), 'n_union': int(model.n_union)})
+                    return
             hists = [_hist_of_resample(c[2], scn['mags']) for c in choices]
         want = model.resampled_magnitude(obs_counts, hists) if name == 'resampled_magnitude' \
             else model.mll(obs_counts, hists)
